@@ -59,6 +59,28 @@ CHECKS = [
   "design_ref": "DESIGN.md §6 C05",
   "note": TB + " Float arithmetic is modelled exactly; only interval membership with a stated slack is compared.",
   "technique": "Lean 4 theorems (arithmetic over exact rationals) + regenerated skeleton facts + differential correspondence"},
+ {"property_id": "C11",
+  "text": "Theorems over the model of createError / Errors registry / JSONRPCError.val / processResponse, for every application behaviour "
+          "(error types' methods are parameters) and every pair of registration tables: caller error nil iff handler error nil; non-nil "
+          "error gives the zero value; codes without a client-side type arrive as the generic error carrying the server's wire error "
+          "(code 1 and the handler's message for plain unregistered types); a type registered under the same code on both sides "
+          "(codec types: their own code) arrives as exactly that registered type with equal content when decode inverts encode; a failed "
+          "conversion degrades to the generic error, never nil, and val is total. Tie: regenerated skeletons of createError/val/"
+          "processResponse/processError + differential run with a family of real error types, random tables per side, all transports.",
+  "design_ref": "DESIGN.md §6 C11",
+  "note": TB,
+  "technique": "Lean 4 theorems (case analysis over capabilities and tables, parametric in the application) + regenerated skeleton facts + differential correspondence"},
+ {"property_id": "C13",
+  "text": "Theorems: a handler that panics after the gates yields an error response for its own id (handle is total, doCall's recover "
+          "is the model's `panics` outcome); executing any call frame changes nothing of the endpoint but the list of started calls and "
+          "its own registration (responses awaited, channels, deliveries, cancellations of every other call untouched); the panicking "
+          "call's response is an error. Tie: regenerated facts (doCall defers recover before the only reflective call; handlerFunc used "
+          "only through doCall; no other reflect Call in the package) + scenarios against a server in a child process: 6 panic payloads "
+          "x {unary, notification, channel-returning} x {ws, http} x {alone, with concurrent callers and a stream}, observing the caller's "
+          "error, sibling results, process survival and subsequent calls.",
+  "design_ref": "DESIGN.md §6 C13",
+  "note": TB + " Reverse-call panics (client-side handlers) are exercised by the C16 scenarios, not here.",
+  "technique": "Lean 4 theorems (frame lemma on the executor state) + regenerated facts + subprocess scenario correspondence"},
 ]
 
 _PENDING = "check under construction in this round (see DESIGN.md §13 build order); not claimed until its theorem file, tie and unchanged-tree sweep exist"
